@@ -457,6 +457,7 @@ func parseStmts(src string) (out []Stmt, err error) {
 
 type Clause struct {
 	Lemma string // non-empty: justified by a lemma over contracts (assumed by callers, not checked on the body)
+	Disp []string // the tags as written (used in obligation names); nil = same as Tags
 	Tags []string // empty = core
 	E    Expr
 	Src  string
@@ -528,6 +529,62 @@ type Contract struct {
 	Abstract bool   // interface method / external: no body
 	Line     int
 	Props    map[string]bool // all tags mentioned
+	Also     []string        // `also [tags]`: properties whose function set this contract joins although no clause names them
+	Widen    []string        // `widen [tags]`: properties added to every tagged clause of this contract
+}
+
+// applyWiden: the properties named by `widen` depend on this function as a whole, so each of its tagged
+// clauses is checked (and assumed) under them too; obligation names keep the tags as written.
+func (ct *Contract) applyWiden() {
+	for _, t := range ct.Also {
+		ct.Props[t] = true
+	}
+	if len(ct.Widen) == 0 {
+		return
+	}
+	add := func(tags []string) []string {
+		if len(tags) == 0 {
+			return tags
+		}
+		out := append([]string(nil), tags...)
+		for _, w := range ct.Widen {
+			found := false
+			for _, t := range out {
+				if t == w {
+					found = true
+				}
+			}
+			if !found {
+				out = append(out, w)
+			}
+		}
+		return out
+	}
+	fix := func(cs []*Clause) {
+		for _, c := range cs {
+			if len(c.Tags) > 0 {
+				if c.Disp == nil {
+					c.Disp = c.Tags
+				}
+				c.Tags = add(c.Tags)
+			}
+		}
+	}
+	fix(ct.Requires)
+	fix(ct.Ensures)
+	for _, r := range ct.Rules {
+		fix(r.Req)
+	}
+	for _, l := range ct.Loops {
+		fix(l.Inv)
+		fix(l.Decr)
+		fix(l.Cand)
+	}
+	ct.AssignTags = add(ct.AssignTags)
+	ct.PanicTags = add(ct.PanicTags)
+	for _, w := range ct.Widen {
+		ct.Props[w] = true
+	}
 }
 
 type SpecFunc struct {
@@ -552,13 +609,17 @@ type SpecFile struct {
 }
 
 var clauseKeywords = map[string]bool{
-	"func": true, "lemma": true, "nopanic": true, "joins": true, "requires": true, "assume": true, "ensures": true, "ghost": true, "on": true, "effect": true,
+	"func": true, "lemma": true, "nopanic": true, "joins": true, "also": true, "widen": true, "requires": true, "assume": true, "ensures": true, "ghost": true, "on": true, "effect": true,
 	"loop": true, "assigns": true, "havoc": true, "may-panic": true, "pure": true, "spec": true,
 	"abstract": true, "guarded": true, "no-return": true, "ensures-by": true, "guarded-cell": true, "freevars": true, "trusted": true, "axiom": true,
 }
 
+// lastDispCount: number of displayed tags of the last parseTags call that saw a "|" (-1: none).
+var lastDispCount = -1
+
 // parseTags parses a leading "[C01,C02]" and returns the rest.
 func parseTags(s string) ([]string, string) {
+	lastDispCount = -1
 	s = strings.TrimSpace(s)
 	if !strings.HasPrefix(s, "[") {
 		return nil, s
@@ -568,6 +629,12 @@ func parseTags(s string) ([]string, string) {
 		return nil, s
 	}
 	inner := s[1:end]
+	// "[C18|C03,C10]": the tags after the bar count like the others but are not part of the obligation's name
+	lastDispCount = -1
+	if bar := strings.Index(inner, "|"); bar >= 0 {
+		lastDispCount = len(strings.Split(strings.TrimSpace(inner[:bar]), ","))
+		inner = inner[:bar] + "," + inner[bar+1:]
+	}
 	// only treat as tags if every element looks like Cnn or "core"
 	var tags []string
 	for _, t := range strings.Split(inner, ",") {
@@ -679,6 +746,9 @@ func parseSpecFile(path string) (*SpecFile, error) {
 			return fmt.Errorf("%s:%d: %v", path, line, err)
 		}
 		c := &Clause{Tags: tags, E: e, Src: rest, Ord: len(*list) + 1}
+		if lastDispCount >= 0 && lastDispCount <= len(tags) {
+			c.Disp = tags[:lastDispCount]
+		}
 		*list = append(*list, c)
 		if cur != nil {
 			for _, t := range tags {
@@ -972,6 +1042,12 @@ func parseSpecFile(path string) (*SpecFile, error) {
 				for _, t := range tags {
 					cur.Props[t] = true
 				}
+			case "also":
+				tags, _ := parseTags(r.text)
+				cur.Also = append(cur.Also, tags...)
+			case "widen":
+				tags, _ := parseTags(r.text)
+				cur.Widen = append(cur.Widen, tags...)
 			case "joins":
 				cur.Joins = true
 			case "may-panic":
@@ -1020,6 +1096,9 @@ func parseSpecFile(path string) (*SpecFile, error) {
 				}
 			}
 		}
+	}
+	for _, n := range sf.Order {
+		sf.Contracts[n].applyWiden()
 	}
 	return sf, nil
 }
